@@ -193,6 +193,31 @@ def order(
     leafs_connected, _ = _connecting_to_roots(dependents, dependencies)
     i = 0
 
+    # Data roots that were cut out above are emitted together with the first
+    # remaining node that requires them. If all of their dependents were
+    # themselves removed as non-task leaves nothing is left to trigger that, so
+    # they are emitted first.
+    still_required = {
+        data for k, v in requires_data_task.items() if k not in result for data in v
+    }
+    orphans = [
+        data
+        for k in [k for k in requires_data_task if k in result]
+        for data in requires_data_task.pop(k) - still_required
+    ]
+    while orphans:
+        data = orphans.pop()
+        if data in result:
+            continue
+        if requires_data_task[data]:
+            # a cut out non-task node that needs a data root itself
+            orphans.append(data)
+            orphans.extend(requires_data_task.pop(data))
+            continue
+        result[data] = Order(i, 0) if return_stats else i
+        if data not in external_keys:
+            i += 1
+
     runnable_hull = set()
     reachable_hull = set()
 
